@@ -163,9 +163,30 @@ struct same_sel<S, Op, typename std::enable_if<(sizeof(Op::template same_f<S>(0,
 // appended to every operation name of a pass (e.g. "@upward" while a rounding mode is in force)
 inline std::string& name_suffix() { static std::string s; return s; }
 
+// Operand provenance: a 128-bit (256-bit) vector may be the low part of a wider register whose upper part holds something else, e.g. after
+// _mm256_castsi256_si128 on a live 256-bit value. Code that widens an operand with _mm512_castsi128_si512 and then looks at the upper lanes reads that
+// garbage (seed C02-d). With AVX2 (AVX-512F) available the operands handed to the operation are therefore the low parts of registers with a non-zero
+// pattern above them; the empty asm keeps the compiler from proving otherwise.
+template<class P> inline P dirty_upper(P x, int) { return x; }
+#if defined(__AVX512F__)
+inline __m256i dirty_upper(__m256i x, int pat) { __m512i w = _mm512_inserti64x4(_mm512_set1_epi32(pat), x, 0); __asm__ __volatile__("" : "+v"(w)); return _mm512_castsi512_si256(w); }
+inline __m256 dirty_upper(__m256 x, int pat) { return _mm256_castsi256_ps(dirty_upper(_mm256_castps_si256(x), pat)); }
+inline __m256d dirty_upper(__m256d x, int pat) { return _mm256_castsi256_pd(dirty_upper(_mm256_castpd_si256(x), pat)); }
+inline __m128i dirty_upper(__m128i x, int pat) { __m512i w = _mm512_inserti32x4(_mm512_set1_epi32(pat), x, 0); __asm__ __volatile__("" : "+v"(w)); return _mm512_castsi512_si128(w); }
+inline __m128 dirty_upper(__m128 x, int pat) { return _mm_castsi128_ps(dirty_upper(_mm_castps_si128(x), pat)); }
+inline __m128d dirty_upper(__m128d x, int pat) { return _mm_castsi128_pd(dirty_upper(_mm_castpd_si128(x), pat)); }
+#elif defined(__AVX2__)
+inline __m128i dirty_upper(__m128i x, int pat) { __m256i w = _mm256_inserti128_si256(_mm256_set1_epi32(pat), x, 0); __asm__ __volatile__("" : "+x"(w)); return _mm256_castsi256_si128(w); }
+inline __m128 dirty_upper(__m128 x, int pat) { return _mm_castsi128_ps(dirty_upper(_mm_castps_si128(x), pat)); }
+inline __m128d dirty_upper(__m128d x, int pat) { return _mm_castsi128_pd(dirty_upper(_mm_castpd_si128(x), pat)); }
+#endif
+// a different pattern above each operand (equal garbage would compare equal and hide the leak)
+template<class V, bool VEC = (V::width > 1)> struct Dirty { static V f(V v, int pat) { return V{dirty_upper(avel::decay(v), pat)}; } };
+template<class V> struct Dirty<V, false> { static V f(V v, int) { return v; } };
+
 template<class V, class Op>
 VX_NOINLINE void impl_vec_fn(Buffers<typename V::scalar>& B, unsigned off) {
-    V va = from_lanes<V>(B.a + off), vb = from_lanes<V>(B.b + off), vc = from_lanes<V>(B.c + off);
+    V va = Dirty<V>::f(from_lanes<V>(B.a + off), 0x1AA5C33C), vb = Dirty<V>::f(from_lanes<V>(B.b + off), 0x7C3C5AA5), vc = Dirty<V>::f(from_lanes<V>(B.c + off), int(0x93A55A3Cu));
     result_bits(Op::apply(va, vb, vc), B.g + off);
 }
 
@@ -336,6 +357,43 @@ struct RunnerS {
         }
     }
 
+    // ambient floating-point state other than the rounding mode: the K tuples again with denormals-are-zero and/or flush-to-zero set in MXCSR (what
+    // -ffast-math start-up code does). Integer results are compared (integer models do not depend on the floating-point environment; an integer
+    // operation routed through subnormal doubles does: seed C05-d); for every element type the MXCSR control bits must come back as they were
+    // handed in (an operation that clears 'the exception flags' with a mask that is one bit too wide: seed C11-d).
+    void ambient(const std::vector<S>& K) {
+        const unsigned W = vt.W;
+        const bool cmp = std::is_integral<S>::value;
+        const std::size_t nk = K.size();
+        std::uint64_t total = nk;
+        if (vt.arity >= 2) total = std::uint64_t(nk) * nk;
+        static const unsigned amb[3] = {0x0040u, 0x8000u, 0x8040u};
+        const unsigned saved = _mm_getcsr();
+        bool reported = false;
+        for (unsigned ai = 0; ai < 3; ++ai) {
+            const unsigned want = (saved & ~0x8040u) | amb[ai];
+            for (std::uint64_t t = 0; t < total; ++t) {
+                cur = t;
+                for (unsigned i = 0; i < W; ++i) { B.a[i] = K[(t + i) % nk]; B.b[i] = K[(t / nk + 3 * i) % nk]; B.c[i] = K[(t + 5 * i + 1) % nk]; }
+                if (!vt.lane_pass) for (unsigned i = 1; i < W; ++i) { B.b[i] = B.b[0]; B.c[i] = B.c[0]; }
+                vt.model_block(B, W);
+                if (W == 1 && !B.dom[0]) continue;  // as in impl_block: a width-1 'vector' is a scalar, and a tuple outside the domain (division by zero) is not executed
+                cur_off = 0;
+                _mm_setcsr(want);
+                vt.impl_vec(B, 0);
+                const unsigned now = _mm_getcsr();
+                _mm_setcsr(saved);
+                if ((now & 0xFFC0u) != (want & 0xFFC0u) && !reported) {
+                    reported = true;
+                    char b[96];
+                    std::snprintf(b, sizeof b, " handed in MXCSR=%04x, left MXCSR=%04x", want & 0xFFC0u, now & 0xFFC0u);
+                    reg().mxcsr_changes.push_back(st->subject + ":" + st->op + b);
+                }
+                if (cmp) compare_block(W, false, hcomb(0xA000 + ai, 0), "ambient DAZ/FTZ");
+            }
+        }
+    }
+
     struct Job {
         RunnerS* r;
         const DomainS<S>* d;
@@ -343,7 +401,7 @@ struct RunnerS {
         const std::vector<S>* fills;
         void operator()() {
             r->phase1(*d);
-            if (K && !K->empty()) { r->phase2(*K, *fills); r->phase3(*K); }
+            if (K && !K->empty()) { r->phase2(*K, *fills); r->phase3(*K); r->ambient(*K); }
         }
     };
     struct ReplayJob {
@@ -363,9 +421,19 @@ struct RunnerS {
         }
         vt.model_block(B, W);
         ReplayJob j = {this};
-        int sig = guarded(j);
-        if (sig) { std::printf("{\"replay\":true,\"signal\":%d,\"fails\":1}\n", sig); return; }
-        compare_block(W, false, 0, "replay");
+        // the failing pass may have been the one with denormals-are-zero / flush-to-zero set: a replay repeats the call under the default MXCSR and under the
+        // three ambient settings of RunnerS::ambient() and reports a failure if any of them fails
+        static const unsigned amb[4] = {0u, 0x0040u, 0x8000u, 0x8040u};
+        const unsigned saved = _mm_getcsr();
+        for (unsigned ai = 0; ai < 4; ++ai) {
+            if (ai && !std::is_integral<S>::value) break;
+            _mm_setcsr((saved & ~0x8040u) | amb[ai]);
+            int sig = guarded(j);
+            _mm_setcsr(saved);
+            if (sig) { std::printf("{\"replay\":true,\"signal\":%d,\"fails\":1}\n", sig); return; }
+            compare_block(W, false, 0, ai ? "replay (ambient DAZ/FTZ)" : "replay");
+            if (st->fails) break;
+        }
         std::printf("{\"replay\":true,\"signal\":0,\"fails\":%s,\"witnesses\":[", u64s(st->fails).c_str());
         for (std::size_t k = 0; k < st->witnesses.size(); ++k) std::printf("%s%s", k ? "," : "", st->witnesses[k].c_str());
         std::printf("]}\n");
